@@ -67,6 +67,22 @@ pub mod heapless {
     pub struct Vec<T, const N: usize> { v: std::vec::Vec<T> }
     impl<T, const N: usize> Vec<T, N> {
         pub uninterp spec fn view(&self) -> Seq<T>;
+        #[verifier::external_body]
+        pub fn iter<'v>(&'v self) -> (r: VIter<'v, T>) ensures r.rest() == self.view() { unimplemented!() }
+    }
+    #[verifier::external_body]
+    #[verifier::reject_recursive_types(T)]
+    pub struct VIter<'v, T> { p: core::marker::PhantomData<&'v T> }
+    impl<'v, T> VIter<'v, T> {
+        pub uninterp spec fn rest(&self) -> Seq<T>;
+        /// Iterator::any with a PURE predicate: d[i] is its answer for the i-th element
+        #[verifier::external_body]
+        pub fn any<F: Fn(&T) -> bool>(self, f: F) -> (r: bool)
+            requires forall|x: &T| f.requires((x,)),
+            ensures exists|d: Seq<bool>| #![trigger d.len()] d.len() == self.rest().len()
+                && (forall|i: int| #![trigger d[i]] #![trigger self.rest()[i]] 0 <= i < d.len() ==> f.ensures((&self.rest()[i],), d[i]))
+                && r == (exists|i: int| 0 <= i < d.len() && #[trigger] d[i]),
+        { unimplemented!() }
     }
     impl<T: Copy, const N: usize> Clone for Vec<T, N> {
         #[verifier::external_body]
@@ -112,11 +128,25 @@ pub struct KeyCode { p: u16 }
 //@@ no-derives
 //@@ keep-vis
 //@@ attr #[verifier::reject_recursive_types(T)]
+//@ item keyberon/src/action.rs struct ForkConfig
+//@@ no-derives
+//@@ keep-vis
+//@@ attr #[verifier::reject_recursive_types(T)]
 //@ item keyberon/src/action.rs enum Action
 //@@ no-derives
 //@@ keep-vis
 //@@ attr #[verifier::reject_recursive_types(T)]
-//@@ keep-variants NoOp Trans KeyCode MultipleKeyCodes OneShot Layer MultipleActions Custom
+//@@ keep-variants NoOp Trans KeyCode MultipleKeyCodes OneShot Layer MultipleActions Fork Custom
+//@ raw
+#[verifier::external_body]
+pub struct NormalKeyFlags { p: u8 }
+#[verifier::external_body]
+#[verifier::reject_recursive_types(T)]
+pub struct SequenceEvent<'a, T> { p: core::marker::PhantomData<&'a T> }
+//@ item keyberon/src/layout.rs enum State
+//@@ keep-vis
+//@@ no-derives
+//@@ attr #[verifier::reject_recursive_types(T)]
 //@ item keyberon/src/layout.rs enum CustomEvent
 //@@ no-derives
 //@@ keep-vis
@@ -206,7 +236,7 @@ pub ghost struct DoCall<'a, T> {
 //@@ keep-vis
 //@@ attr #[verifier::reject_recursive_types(T)]
 //@@ resub Rbound 1 /T: 'a \+ std::fmt::Debug,/ => `T: 'a,`
-//@@ keep-fields waiting extra_waiting tap_dance_eager queue oneshot last_press_tracker action_queue rpt_action quick_tap_hold_timeout
+//@@ keep-fields states waiting extra_waiting tap_dance_eager queue oneshot last_press_tracker action_queue rpt_action quick_tap_hold_timeout
 //@@ add-field pub verif_calls: Ghost<Seq<DoCall<'a, T>>>
 //@@ add-field pub verif_events: Ghost<Seq<Event>>
 //@@ add-field pub verif_dequeued: Ghost<Seq<Queued>>
@@ -831,3 +861,78 @@ fn tick_eager_counter(&mut self)
             final(self).tap_dance_eager == (if ended { None } else { Some(t) })
         },
         final(self).verif_calls@ == old(self).verif_calls@,
+
+// ---------------------------------------------------------------------------------------
+// The prologue of Layout::do_action (a FRAGMENT: everything before `use Action::*;`): a transparent
+// action is resolved through the layers first, and an action at ANOTHER coordinate closes the
+// tap-repress window of the key pressed last (C05: the window is for a re-press of the same key).
+// ---------------------------------------------------------------------------------------
+//@ raw
+impl<'a, const C: usize, const R: usize, T: 'a + Copy> Layout<'a, C, R, T> {
+    /// Layout::resolve_coord: proved in unit `layers` against the search order; here an opaque result
+    pub uninterp spec fn resolved_spec(&self, coord: KCoord, ls: VerifLayerIter) -> &'a Action<'a, T>;
+    #[verifier::external_body]
+    fn resolve_coord(&self, coord: KCoord, layer_stack: VerifLayerIter) -> (r: &'a Action<'a, T>)
+        ensures r == self.resolved_spec(coord, layer_stack),
+    { unimplemented!() }
+}
+
+//@ fragment keyberon/src/layout.rs fn do_action in `Layout<'a, C, R, T>` head-until `use Action::*;` as do_action_prologue
+//@@ wrap impl<'a, const C: usize, const R: usize, T: 'a + Copy> Layout<'a, C, R, T>
+//@@ header
+fn do_action_prologue(&mut self, action: &'a Action<'a, T>, coord: KCoord, layer_stack: VerifLayerIter) -> &'a Action<'a, T>
+//@@ tail
+    action
+//@@ resub Rpath 1 /if let Trans = action/ => `if let Action::Trans = action`
+//@@ ret r
+//@@ spec
+    ensures
+        // a transparent entry is replaced by what the layers say for this coordinate; anything else
+        // is performed as it is
+        r == (if *action is Trans { old(self).resolved_spec(coord, layer_stack) } else { action }),
+        // an action at another coordinate closes the tap-repress window; the same coordinate keeps it
+        final(self).last_press_tracker.coord == old(self).last_press_tracker.coord,
+        final(self).last_press_tracker.tap_hold_timeout == (if old(self).last_press_tracker.coord != coord { 0u16 } else { old(self).last_press_tracker.tap_hold_timeout }),
+        final(self).waiting == old(self).waiting, final(self).extra_waiting@ == old(self).extra_waiting@,
+        final(self).verif_calls@ == old(self).verif_calls@,
+
+
+// ---------------------------------------------------------------------------------------
+// fork: the Fork arm of Layout::do_action (a FRAGMENT).  C10: "fork takes its right branch iff one of
+// its trigger keys is currently active".
+// ---------------------------------------------------------------------------------------
+//@ raw
+use State::*;
+/// R33: `fcfg.right_triggers.contains(keycode)` -> this helper (slice membership; usable in specifications)
+spec fn trig_spec<'a, T>(fcfg: &ForkConfig<'a, T>, keycode: &KeyCode) -> bool { fcfg.right_triggers@.contains(*keycode) }
+#[verifier::external_body]
+#[verifier::when_used_as_spec(trig_spec)]
+fn verif_trig<'a, T>(fcfg: &ForkConfig<'a, T>, keycode: &KeyCode) -> (r: bool)
+    ensures r == trig_spec(fcfg, keycode),
+{ unimplemented!() }
+/// a trigger key is currently active: some real or macro key state carries one of the trigger codes
+spec fn trigger_active<'a, T>(states: Seq<State<'a, T>>, fcfg: &ForkConfig<'a, T>) -> bool {
+    exists|i: int| 0 <= i < states.len() && (match #[trigger] states[i] {
+        State::NormalKey { keycode, .. } => fcfg.right_triggers@.contains(keycode),
+        State::FakeKey { keycode } => fcfg.right_triggers@.contains(keycode),
+        _ => false,
+    })
+}
+
+//@ fragment keyberon/src/layout.rs fn do_action in `Layout<'a, C, R, T>` block-after `Fork(fcfg) => {` as do_action_fork
+//@@ wrap impl<'a, const C: usize, const R: usize, T: 'a + Copy> Layout<'a, C, R, T>
+//@@ header
+fn do_action_fork(&mut self, action: &'a Action<'a, T>, coord: KCoord, delay: u16, layer_stack: VerifLayerIter, fcfg: &'a ForkConfig<'a, T>) -> CustomEvent<'a, T>
+//@@ resub R33 1 /fcfg\.right_triggers\.contains\(keycode\)/ => `verif_trig(fcfg, keycode)`
+//@@ resub R12 1 /self\.states\.iter\(\)\.any\(\|s\| (match s \{.*?\n\s*\})\) \{/ => `self.states.iter().any(|s: &State<'a, T>| -> (b: bool) ensures b == (\1) { \1 }) {`
+//@@ resub R5 2 /&mut layer_stack\.clone\(\)/ => `layer_stack`
+//@@ ret r
+//@@ spec
+    ensures
+        // exactly one branch is performed, at this coordinate, not as a one-shot:
+        one_more(old(self).verif_calls@, final(self).verif_calls@),
+        final(self).verif_calls@.last().coord == coord && final(self).verif_calls@.last().delay == delay && !final(self).verif_calls@.last().is_oneshot,
+        // the RIGHT one iff a trigger key is currently active, else the left (default) one
+        final(self).verif_calls@.last().action == (if trigger_active(old(self).states@, fcfg) { &fcfg.right } else { &fcfg.left }),
+        // the fork itself, not the branch, is what `repeat` repeats
+        final(self).rpt_action == Some(action),
